@@ -389,3 +389,17 @@ def run(ctx):
     fwv = ctx.fn('ProtocolState::on_current_operation_fully_written')
     eff_ = prims.must_field_effects(F, fwv)
     ctx.ob('Option::None{}' in eff_.get('current_operation', set()), 'a fully written operation always vacates the current-operation slot (otherwise the service loop would process it again)', 'fully-written|vacates', loc=fwv.loc(), rule='R-C01-5')
+    # ---- added after seed C15-4b: an operation taken out of a queue is the operation handed to the encoder
+    dq_ = ctx.fn('ProtocolState::dequeue_operation')
+    rv_ = prims.ret_variants(dq_)
+    pops_ = dq_.calls('VecDeque::pop_front', 'pop_front')
+    for c_ in pops_:
+        q_ = show(c_.arg(0))
+        from ..mir import show_atom as _sa
+        somes_ = [en_ for en_ in dq_.graph()[2] if _sa(dq_.edge_atom(en_)) == 'VecDeque::pop_front(%s) is Some' % q_]   # the written test only, not equivalent spellings of `!is_empty`
+        after = dq_.reach(somes_) if somes_ else dq_.reach(list(dq_.graph()[0][c_.bb]))
+        outs = sorted({show(e_) for b_, e_ in rv_ if b_ in after or (b_ == c_.bb and not somes_)})
+        ctx.ob(bool(outs) and all((o_.startswith('Option::Some{0: ') and ('VecDeque::pop_front(%s)' % q_) in o_) or o_ == 'VecDeque::pop_front(%s)' % q_ for o_ in outs),
+               'dequeue: whatever is popped from %s is returned (no path pops an operation and answers None, which would leave it tracked but in no queue) (%s)' % (q_.replace('self.', ''), outs),
+               'popped-is-returned|' + q_.replace('self.', ''), loc=c_.loc(), rule='R-C01-6')
+    ctx.floor(len(pops_), 3, 'pop sites in dequeue_operation')
